@@ -276,7 +276,7 @@ impl SaveDirState {
 
                 let dir = std::path::absolute(dir)?;
                 out.write_all(b"-L")?;
-                write_copied_file_arg(out, &dir)?;
+                write_copied_file_arg(out, &dir, is_rsp_file)?;
             } else {
                 // If the arg contains '=', then check to see if what's after the '=' is a filename
                 // that exists. If it does, use that.
@@ -294,18 +294,13 @@ impl SaveDirState {
 
                 let path = std::path::absolute(maybe_path)?;
                 if self.output_path(&path).exists() {
-                    write_copied_file_arg(out, &path)?;
+                    write_copied_file_arg(out, &path, is_rsp_file)?;
                 } else if is_rsp_file {
                     // At-file content is consumed directly by the linker, not by a shell, so no
                     // shell escaping is needed.
-                    out.write_all(maybe_path.as_bytes())?;
+                    write_rsp_escaped(out, maybe_path.as_bytes())?;
                 } else {
-                    for b in maybe_path.bytes() {
-                        if b" $\\".contains(&b) {
-                            out.write_all(b"\\")?;
-                        }
-                        out.write_all(&[b])?;
-                    }
+                    write_shell_quoted(out, maybe_path.as_bytes())?;
                 }
             }
         }
@@ -588,9 +583,49 @@ fn write_arg_separator(out: &mut dyn Write, is_at_file: bool) -> Result {
     Ok(())
 }
 
-fn write_copied_file_arg(out: &mut dyn Write, path: &Path) -> Result {
-    out.write_all(b"$D/")?;
-    out.write_all(to_output_relative_path(path).as_os_str().as_encoded_bytes())?;
+fn write_copied_file_arg(out: &mut dyn Write, path: &Path, is_rsp_file: bool) -> Result {
+    let relative_path = to_output_relative_path(path);
+    let relative_path = relative_path.as_os_str().as_encoded_bytes();
+    if is_rsp_file {
+        // At-file content is consumed directly by the linker, not by a shell.
+        out.write_all(b"$D/")?;
+        write_rsp_escaped(out, relative_path)?;
+    } else {
+        out.write_all(b"\"$D\"/")?;
+        write_shell_quoted(out, relative_path)?;
+    }
+    Ok(())
+}
+
+/// Writes `bytes` to a response file, escaping the characters that are special to our response file
+/// parser.
+fn write_rsp_escaped(out: &mut dyn Write, bytes: &[u8]) -> Result {
+    for b in bytes {
+        if b.is_ascii_whitespace() || b"'\"\\".contains(b) {
+            out.write_all(b"\\")?;
+        }
+        out.write_all(&[*b])?;
+    }
+    Ok(())
+}
+
+/// Writes `bytes` as a single-quoted shell word, so that no character in it is interpreted by the
+/// shell.
+fn write_shell_quoted(out: &mut dyn Write, bytes: &[u8]) -> Result {
+    let is_safe = |b: &u8| b.is_ascii_alphanumeric() || b"_@%+=:,./-".contains(b);
+    if !bytes.is_empty() && bytes.iter().all(is_safe) {
+        out.write_all(bytes)?;
+        return Ok(());
+    }
+    out.write_all(b"'")?;
+    for b in bytes {
+        if *b == b'\'' {
+            out.write_all(b"'\\''")?;
+        } else {
+            out.write_all(&[*b])?;
+        }
+    }
+    out.write_all(b"'")?;
     Ok(())
 }
 
